@@ -25,9 +25,27 @@ _KTAB = [u3.COM, u3.COM, u3.COM, u3.SKP, u3.SHP, u3.SLC, u3.EPF, u3.END, u3.SDP,
          0x4A, u3.COM]
 
 
+# words as a link partner / link layer frames them: one control code repeated over the whole word (SKP weighted up:
+# it is the one code besides COM that the scrambling rules of the standard treat specially), and the ordered sets of
+# the link layer (three framing symbols + EPF), SKP pairs next to data, SKP runs of every length and position.
+_UNIFORM = [u3.SKP, u3.SKP, u3.SKP, u3.SHP, u3.SLC, u3.EPF, u3.END, u3.SDP, u3.EDB, u3.SUB, u3.RSD, 0x00, 0xFF, 0x4A]
+_D = None       # placeholder: a data symbol taken from the case's bits
+_SETS = [[u3.SHP, u3.SHP, u3.SHP, u3.EPF], [u3.SDP, u3.SDP, u3.SDP, u3.EPF], [u3.END, u3.END, u3.END, u3.EPF],
+         [u3.EDB, u3.EDB, u3.EDB, u3.EPF], [u3.SLC, u3.SLC, u3.SLC, u3.EPF],
+         [u3.SKP, u3.SKP, _D, _D], [_D, _D, u3.SKP, u3.SKP], [u3.SKP, u3.SKP, u3.SKP, _D], [_D, u3.SKP, u3.SKP, u3.SKP],
+         [u3.SKP, _D, _D, _D], [_D, _D, _D, u3.SKP], [u3.SKP, u3.SKP, u3.SKP, u3.SKP], [u3.SUB, u3.SUB, _D, _D],
+         [u3.SKP, u3.SKP, u3.SHP, u3.SHP], [u3.END, u3.EPF, u3.SKP, u3.SKP]]
+
+
 def decode_word(shape, bits):
     """shape: 0 random D/K mix, 1 all data, 2 COM in symbol 0 + data, 3 K-COM only in a later symbol, 4 four COMs,
-    5 logical idle (all-zero data), 6 all K, 7 the *data* byte 0xBC in symbol 0."""
+    5 logical idle (all-zero data), 6 all K, 7 the *data* byte 0xBC in symbol 0, 8 one non-COM control code in all
+    four symbols, 9 an ordered-set-like word (framing sets, SKP runs/pairs next to data)."""
+    if shape == 8:
+        return u3.syms_to_word([(_UNIFORM[(bits >> 27) % len(_UNIFORM)], 1)] * 4)
+    if shape == 9:
+        pat = _SETS[(bits >> 27) % len(_SETS)]
+        return u3.syms_to_word([((bits >> (9 * i)) & 0xFF, 0) if b is None else (b, 1) for i, b in enumerate(pat)])
     syms = []
     for i in range(4):
         f = (bits >> (9 * i)) & 0x1FF
@@ -54,7 +72,7 @@ def decode_word(shape, bits):
     return u3.syms_to_word(syms)
 
 
-_SHAPE = weighted([(0, 6), (1, 8), (2, 3), (3, 2), (4, 1), (5, 4), (6, 1), (7, 1)])
+_SHAPE = weighted([(0, 6), (1, 8), (2, 3), (3, 2), (4, 1), (5, 4), (6, 1), (7, 1), (8, 2), (9, 2)])
 # op = (shape, bits, gap cycles before, stall cycles, hold)
 _OP = st.tuples(_SHAPE, st.integers(0, (1 << 36) - 1), weighted([(0, 8), (1, 2), (2, 1), (5, 1)]),
                 weighted([(0, 8), (1, 2), (2, 1), (3, 1)]), weighted([(0, 7), (1, 1)]))
@@ -222,7 +240,9 @@ class ScramblerSub(Sub):
     name = "scrambler"
     budget = {"quick": 9000, "thorough": 140000}
     rule = ("Scrambler/Descrambler (4 initial values) driven with word schedules: data/K mixes, COM in symbol 0 / in "
-            "later symbols / as data byte, logical idle, invalid gaps with junk, ready stalls, hold on the transfer "
+            "later symbols / as data byte, logical idle, one control code (SKP, framing codes, others) in all four "
+            "symbols, ordered-set-like words (framing sets, SKP runs and pairs next to data), invalid gaps with junk, "
+            "ready stalls, hold on the transfer "
             "cycle, enable off/on/per word, rare clear; oracle per cycle: valid/ctrl pass through, sink.ready = "
             "source.ready, output data = D symbols XOR bit-serial reference keystream at the position defined by the "
             "statement (one step per transferred word, restart after a transferred COM-first word), stable while "
@@ -250,6 +270,7 @@ class ScramblerSub(Sub):
         restarts = 0
         scrambled_after_restart = 0
         best_after_restart = 0
+        uniform_open = False
         seen = set()
         for t, (vec, o) in enumerate(zip(script, trace)):
             if o.ovalid != vec["valid"] or o.iready != vec["ready"]:
@@ -302,6 +323,15 @@ class ScramblerSub(Sub):
                 best_after_restart = max(best_after_restart, scrambled_after_restart)
             if w["ctrl"] not in (0, 0xF):
                 seen.add("mixed-word")
+            if w["ctrl"] == 0xF and w["data"] == (w["data"] & 0xFF) * 0x01010101 and not com_first:
+                seen.add("uniform-K-word" + ("-SKP" if (w["data"] & 0xFF) == u3.SKP else ""))
+                uniform_open = True
+            elif com_first:
+                uniform_open = False
+            elif uniform_open and w["enable"] and w["ctrl"] != 0xF:
+                seen.add("uniform-K-word-then-scrambled-data")
+            if w.get("shape") == 9:
+                seen.add("ordered-set-word")
             if any((w["data"] >> (8 * i)) & 0xFF == u3.COM and (w["ctrl"] >> i) & 1 for i in (1, 2, 3)) and not com_first:
                 seen.add("com-not-first")
             if (w["data"] & 0xFF) == u3.COM and not (w["ctrl"] & 1):
